@@ -3,7 +3,7 @@ extern crate std;
 use super::*;
 use crate::context::Context;
 use crate::gc::Gc;
-use crate::collect_impl::verif_kani::{a, Rec};
+use crate::collect_impl::verif_kani::{a, same, Rec};
 #[kani::proof]
 #[kani::unwind(5)]
 fn k_collect_enum_map() {
@@ -12,7 +12,7 @@ fn k_collect_enum_map() {
         let g = [Gc::new(mc, 0u8), Gc::new(mc, 1u8)];
         let m: EnumMap<bool, Gc<'_, u8>> = EnumMap::from_array([g[0], g[1]]);
         let mut r = Rec::new(); m.trace(&mut r);
-        assert!(r.ns == 2 && r.nw == 0 && r.s[0] == a(g[0]) && r.s[1] == a(g[1]), "[trace] EnumMap: the value of every key");
+        assert!(same(&r, &[a(g[0]), a(g[1])], &[]), "[trace] EnumMap: the value of every key");
         assert!(<EnumMap<bool, Gc<'_, u8>> as Collect>::NEEDS_TRACE && !<EnumMap<bool, u8> as Collect>::NEEDS_TRACE);
         core::mem::forget(cx);
     }
